@@ -108,7 +108,7 @@ func degRelin(a, b int) int {
 
 // binRow: f(op0 *Ciphertext, op1 Operand, opOut *Ciphertext) error
 func binRow[E any](method string, f func(E, *rlwe.Ciphertext, rlwe.Operand, *rlwe.Ciphertext) error, kinds []Kind, out *OutSpec, doc string) Row {
-	return Row{Method: method, Kinds: kinds, Out: out, Doc: doc,
+	return Row{Method: method, Kinds: kinds, Out: out, Doc: doc, OperandArgs: []int{1},
 		Call: func(rcv interface{}, in []interface{}, o interface{}) (interface{}, error) {
 			return o, f(rcv.(E), asCt(in[0]), in[1], asCt(o))
 		}}
